@@ -87,7 +87,9 @@ def model_from_headers_rec(name, headers):
     fields = {}
     complex_fields = defaultdict(list)
     for header in headers:
-        if RowParser.HEADER_FIELD_SEPARATOR in header:
+        # Only the field name is nested: a type annotation or a default value
+        # may contain the separator (e.g. `price:float=1.5`).
+        if RowParser.HEADER_FIELD_SEPARATOR in get_field_name(header):
             field, subheader = header.split(RowParser.HEADER_FIELD_SEPARATOR, 1)
             complex_fields[field].append(subheader)
         else:
